@@ -146,7 +146,7 @@ SPECS = {
             },
         }],
         'rule': ('one run = one seeded history of 10-36 key operations (new_key / new_key_change / get_key / get_key_change, bulk '
-                 'get_keys / new_keys, explicit key_for_path / address_index, new_account, switching the default account, import of an unrelated key, keys of another witness type in the same '
+                 'get_keys / new_keys, explicit key_for_path / address_index / keys_for_path with number_of_keys, new_account, switching the default account, import of an unrelated key, keys of another witness type in the same '
                  'wallet, scan with funded gaps, mark-used, reopen / second handle / drop / gc, rebuild in a new database from the '
                  'same master material with permuted cosigner keys, watch-only wallet from the exported account xpub) on HD, '
                  'single-key, multisig and watch-only wallets (HD wallets from extended keys and from BIP39 sentences with / without passphrase) over 5 networks x 3 witness types, with commit-failure and crash faults; '
